@@ -1,5 +1,105 @@
-(* Eval03.v — evaluation of C03 observations (stub: replaced when C03 is built). *)
-From Verif Require Import Base Sexp.
+(* Eval03.v — evaluation of C03 observations: generated deriveCompare vs model and order spec. *)
+From Coq Require Import String.
+From Verif Require Import Base Sexp Go.Ty Go.Val Go.Equal Go.Compare Go.CompareSpec Go.Methods.
 Open Scope string_scope.
 
-Definition eval03 (e : sexp) : verdict := bad_line.
+Definition zres_sexp (r : res Z) : sexp :=
+  match r with
+  | Ok c => L [Sym "ret"; L [Sym "i"; Num c]]
+  | Pan => Sym "panic" | Unsup => Sym "unsupported" | Stuck => Sym "stuck"
+  end.
+
+Definition get_i (e : sexp) : option Z :=
+  match e with L [Sym s; Num z] => if String.eqb s "i" then Some z else None | _ => None end.
+Definition get_b (e : sexp) : option bool :=
+  match e with L [Sym s; Num z] => if String.eqb s "b" then Some (Z.eqb z 1) else None | _ => None end.
+
+Definition in_range (c : Z) : bool := (Z.eqb c (-1) || Z.eqb c 0 || Z.eqb c 1)%bool.
+Definition sgn_tag (r : res Z) : string :=
+  match r with Ok c => if Z.eqb c 0 then "zero" else if Z.ltb c 0 then "less" else "greater" | _ => "other" end.
+
+Definition node_tag (t : ty) : string :=
+  match resolve [] t with
+  | Some r => match r_node r with
+              | TB _ => "basic" | TP _ => "ptr" | TSl _ => "slice" | TAr _ _ => "array"
+              | TM _ _ => "map" | TSt _ => "struct" | _ => "?" end
+  | None => "?"
+  end.
+
+Definition eval03 (e : sexp) : verdict :=
+  match e with
+  | L [Sym k; tys; xs; ys; real] =>
+      match parse_ty tys, parse_val xs, parse_val ys with
+      | Some t, Some x, Some y =>
+          let typed := (has_type [] t x && has_type [] t y)%bool in
+          let mf := method_free t in
+          let m := if mf then compare_model t x y else cmpm_m true [] t x y in
+          if (String.eqb k "cmp" || String.eqb k "cmpc")%bool then
+            (* specification: the encoding order, and 0 exactly when structurally equal *)
+            let s := if mf then match spec_cmp [] t x y with Some c => Ok c | None => Stuck end else m in
+            let zero_ok := match m, eqm_m [] Top t x y with
+                           | Ok c, Ok b => Bool.eqb (Z.eqb c 0) b
+                           | _, _ => false end in
+            {| v_known := typed;
+               v_model_ok := sexp_eqb (zres_sexp m) real;
+               v_spec_ok := (sexp_eqb (zres_sexp s) real
+                             && match s with Ok c => in_range c | _ => false end
+                             && (zero_ok || negb (sexp_eqb (zres_sexp m) real)))%bool;
+               v_guard := (typed && negb (vm_exposed t))%bool; v_model := zres_sexp m;
+               v_tag := (if vm_exposed t then "known:compare-ignores-value-method/" else "")
+                        ++ (if mf then "" else "methods/") ++ k ++ "/" ++ node_tag t ++ "/" ++ sgn_tag m |}
+          else if String.eqb k "cmpeq" then
+            match real with
+            | L [Sym _; c; b] =>
+                match get_i c, get_b b with
+                | Some c', Some b' =>
+                    {| v_known := typed;
+                       v_model_ok := (sexp_eqb (zres_sexp m) (L [Sym "ret"; c])
+                                      && match eqm_m [] Top t x y with Ok b'' => Bool.eqb b'' b' | _ => false end)%bool;
+                       v_spec_ok := Bool.eqb (Z.eqb c' 0) b';
+                       v_guard := (typed && negb (vm_exposed t))%bool; v_model := zres_sexp m;
+                       v_tag := (if vm_exposed t then "known:compare-ignores-value-method/" else "") ++ "cmpeq/" ++ node_tag t ++ "/" ++ (if b' then "equal" else "different") |}
+                | _, _ => bad_line
+                end
+            | _ => bad_line
+            end
+          else bad_line
+      | _, _, _ => bad_line
+      end
+  | L [Sym k; tys; xs; ys; zs; L [Sym _; a; b; c; d]] =>
+      if String.eqb k "cmp3" then
+        match parse_ty tys, parse_val xs, parse_val ys, parse_val zs, get_i a, get_i b, get_i c, get_i d with
+        | Some t, Some x, Some y, Some z, Some a', Some b', Some c', Some d' =>
+            let typed := (has_type [] t x && has_type [] t y && has_type [] t z)%bool in
+            let mo := (sexp_eqb (zres_sexp (cmpm_m true [] t x y)) (L [Sym "ret"; a])
+                       && sexp_eqb (zres_sexp (cmpm_m true [] t y x)) (L [Sym "ret"; b])
+                       && sexp_eqb (zres_sexp (cmpm_m true [] t y z)) (L [Sym "ret"; c])
+                       && sexp_eqb (zres_sexp (cmpm_m true [] t x z)) (L [Sym "ret"; d]))%bool in
+            let antisym := Z.eqb a' (- b') in
+            let trans := (negb (Z.leb a' 0 && Z.leb c' 0) || Z.leb d' 0)%bool in
+            let trans0 := (negb (Z.eqb a' 0 && Z.eqb c' 0) || Z.eqb d' 0)%bool in
+            {| v_known := typed; v_model_ok := mo;
+               v_spec_ok := (antisym && trans && trans0 && in_range a' && in_range b' && in_range c' && in_range d')%bool;
+               v_guard := typed; v_model := zres_sexp (cmpm_m true [] t x y);
+               v_tag := "cmp3/" ++ node_tag t ++ "/" ++ (if (Z.leb a' 0 && Z.leb c' 0)%bool then "chain" else "nochain") |}
+        | _, _, _, _, _, _, _, _ => bad_line
+        end
+      else bad_line
+  | L [Sym k; tys; Sym cls] =>
+      if String.eqb k "sup-cmp" then
+        match parse_ty tys with
+        | Some t =>
+            let sup := (cmp_sup false t && eq_sup [] Top t)%bool in  (* the package also calls deriveEqual *)
+            let real_ok := String.eqb cls "ok" in
+            let real_err := String.eqb cls "generator-error" in
+            let crash := (String.eqb cls "panic" || String.eqb cls "timeout")%bool in
+            let ok := (crash || if sup then real_ok else real_err)%bool in
+            {| v_known := true; v_model_ok := ok; v_spec_ok := ok; v_guard := true;
+               v_model := Sym (if sup then "ok" else "generator-error");
+               v_tag := "support/" ++ (if crash then "generator-crash-see-C09"
+                                       else if sup then "supported" else "unsupported") |}
+        | None => bad_line
+        end
+      else bad_line
+  | _ => bad_line
+  end.
